@@ -2639,6 +2639,29 @@ func (c *ChannelArbitrator) resolveContract(currentContract ContractResolver) {
 	log.Tracef("ChannelArbitrator(%v): attempting to resolve %T",
 		c.cfg.ChanPoint, currentContract)
 
+	// If the contract is already resolved at this point, then we stopped
+	// after the resolver checkpointed its resolved state, but before the
+	// contract was marked as resolved in the log. We'll do so now, as
+	// otherwise the contract would stay in the log forever and the channel
+	// would never be considered fully resolved.
+	if currentContract.IsResolved() {
+		log.Debugf("ChannelArbitrator(%v): marking already resolved "+
+			"contract %T fully resolved", c.cfg.ChanPoint,
+			currentContract)
+
+		err := c.log.ResolveContract(currentContract)
+		if err != nil {
+			log.Errorf("unable to resolve contract: %v", err)
+		}
+
+		select {
+		case c.resolutionSignal <- struct{}{}:
+		case <-c.quit:
+		}
+
+		return
+	}
+
 	// Until the contract is fully resolved, we'll continue to iteratively
 	// resolve the contract one step at a time.
 	for !currentContract.IsResolved() {
